@@ -70,7 +70,7 @@ def kani_cmd(names, jobs, extra=None):
     cmd = ['cargo', 'kani', '--output-format', 'terse', '-j', str(jobs)]
     for n in names:
         cmd += ['--harness', 'verif_kani::' + n]
-    cmd += ['--exact'] if False else []
+    cmd += ['--exact']
     if extra:
         cmd += extra
     return cmd
@@ -120,7 +120,7 @@ def parse_terse(out, names):
 
 def playback(crate, h, timeout):
     """rerun one failing harness with concrete playback; returns (values, raw)"""
-    cmd = ['cargo', 'kani', '--harness', 'verif_kani::' + h['name'], '-Z', 'concrete-playback', '--concrete-playback=print'] + (h.get('extra') or [])
+    cmd = ['cargo', 'kani', '--exact', '--harness', 'verif_kani::' + h['name'], '-Z', 'concrete-playback', '--concrete-playback=print'] + (h.get('extra') or [])
     env = dict(os.environ, CARGO_NET_OFFLINE='true')
     try:
         p = subprocess.run(cmd, cwd=crate, capture_output=True, text=True, timeout=timeout, env=env)
